@@ -263,6 +263,9 @@ def d_event_cap(ctx):
 
 def e_error_handler_flows(ctx):
     from .. import rails
+    from . import C17
+    # since F75 the interpolation itself may escape the spliced value completely; then `escape(...)` is no longer what keeps the handler's expression intact
+    total = C17.interpolation_is_total(ctx)
     n = 0
     for rel in ctx.tree.glob("nemoguardrails/colang/v2_x/library", (".co",)):
         for f in rails.parse_co(ctx.tree, rel):
@@ -274,9 +277,9 @@ def e_error_handler_flows(ctx):
                         if m.group(2) != "error":
                             continue
                         n += 1
-                        ok = re.match(r"^\s*escape\(\s*\$%s\.error\s*\)\s*$" % re.escape(r), m.group(1)) is not None
+                        ok = total or re.match(r"^\s*escape\(\s*\$%s\.error\s*\)\s*$" % re.escape(r), m.group(1)) is not None
                         ctx.check("C10.e.error-handler", rel, f.name, s_.text[:120], ok,
-                                  "the ColangError handler interpolates the error text through escape(...)" if ok else
+                                  "the ColangError handler interpolates the error text through escape(...) / the interpolation escapes the spliced value completely" if ok else
                                   "the ColangError handler interpolates `%s` unescaped: an error text containing quotes breaks the handler's own expression, the new error matches the restarted handler, which fails again - forever" % m.group(1),
                                   line=s_.line)
     ctx.floor("C10.e.error-handler", "nemoguardrails/colang/v2_x/library", "interpolations of the error text in ColangError handler flows", n, 1)
